@@ -4,6 +4,7 @@ CONSTANTS
   AllCombos = FALSE
   WithBase = TRUE
   CfgAll = TRUE
+  Cross = FALSE
 INIT Init
 NEXT Next
 INVARIANT ExportCase
